@@ -105,6 +105,10 @@ impl Edge for KEdge {
 
 // ---------------------------------------------------------------- Node
 
+/// NOTE (CBMC pitfall, probes dbgc1): keep the default Rust layout and this field order. With
+/// `#[repr(C)]` / `level` first, or with a `&'static [_]` field anywhere in the manager, CBMC
+/// mis-models reads of a node's first child through a reference (spurious counterexamples);
+/// the harness `probe_child0_by_ref` guards against a regression.
 pub struct KNode {
     pub children: UnsafeCell<[KEdge; ARITY]>,
     pub level: Cell<LevelNo>,
@@ -236,6 +240,11 @@ pub struct KCache {
     /// top-most level of the operands of the top-level call
     pub top_level: LevelNo,
     pub top_done: Cell<bool>,
+    /// Operators the harness expects as cache keys (concrete list). When non-empty, the
+    /// specification is instantiated once per listed operator with a *concrete* operator
+    /// (the operator value itself is symbolic data after enum merges, and evaluating the
+    /// specification of every operator at every call is what made solving slow).
+    pub allowed: [Option<KOp>; 14],
     /// number of lookups that are answered by the oracle before the one that misses
     pub pre_hits: Cell<u32>,
     pub gets: Cell<u32>,
@@ -249,6 +258,7 @@ impl KCache {
             top_rank,
             top_level,
             top_done: Cell::new(false),
+            allowed: [None; 14],
             pre_hits: Cell::new(0),
             gets: Cell::new(0),
             hits: Cell::new(0),
@@ -278,6 +288,29 @@ impl<'id> KManager<'id> {
             l = l.min(self.node(ops[2].slot()).level.get());
         }
         l
+    }
+}
+impl KCache {
+    /// NOTE: the list is stored inline; a `&'static [KOp]` field (in particular the dangling
+    /// pointer of `&[]`) inside the manager made CBMC mis-model unrelated reads (probe dbgc1).
+    pub fn set_allowed(&mut self, ops: &[KOp]) {
+        macro_rules! put { ($i:expr) => { if $i < ops.len() { self.allowed[$i] = Some(ops[$i]); } } }
+        put!(0); put!(1); put!(2); put!(3); put!(4); put!(5); put!(6); put!(7); put!(8); put!(9); put!(10); put!(11); put!(12); put!(13);
+        assert!(ops.len() <= 14, "HARNESS: at most 14 expected operators");
+    }
+    /// `r` is a correct value for the key (op, ops, nums)
+    #[inline(always)]
+    fn sem_ok(&self, m: &KManager, op: KOp, ops: &[Borrowed<KEdge>], nums: &[u32], r: &KEdge) -> bool {
+        let al = &self.allowed;
+        if al[0].is_none() {
+            return k_sem_ok(m, op, ops, nums, r);
+        }
+        let mut matched = false;
+        let mut ok = false;
+        macro_rules! alt { ($i:expr) => { if let Some(a) = al[$i] { if op == a { matched = true; ok = k_sem_ok(m, a, ops, nums, r); } } } }
+        alt!(0); alt!(1); alt!(2); alt!(3); alt!(4); alt!(5); alt!(6); alt!(7); alt!(8); alt!(9); alt!(10); alt!(11); alt!(12); alt!(13);
+        assert!(matched, "C06: the operator used as cache key is one that this operation may legitimately memoise under");
+        ok
     }
 }
 impl<'id> ApplyCache<KManager<'id>, KOp> for KCache {
@@ -310,13 +343,12 @@ impl<'id> ApplyCache<KManager<'id>, KOp> for KCache {
                 rank < self.top_rank || (rank == self.top_rank && m.min_level(ops.0) > self.top_level),
                 "HARNESS: sub-call is smaller than the top-level call in the induction measure"
             );
-            let want = k_spec(m, op, ops.0, ops.1);
             let r: u32 = kani::any();
             kani::assume((r & !TAG_BIT) < NT + m.len.get() as u32);
             kani::assume(K_TAGS || r & TAG_BIT == 0);
             let r = KEdge(r);
             kani::assume(k_canonical_edge(m, &r));
-            kani::assume(m.g(&r) == want);
+            kani::assume(self.sem_ok(m, op, ops.0, ops.1, &r));
             self.hits.set(self.hits.get() + 1);
             let r = m.clone_edge(&r);
             let raw = r.0;
@@ -337,8 +369,8 @@ impl<'id> ApplyCache<KManager<'id>, KOp> for KCache {
         self.adds.set(self.adds.get() + 1);
         assert!(v.0.len() == 1 && v.1.len() == 0, "HARNESS: oracle cache only models single-edge values");
         assert!(
-            m.g(&v.0[0]) == k_spec(m, op, ops.0, ops.1),
-            "C06,C02: a result is memoised only under an operator/operand key that denotes it"
+            self.sem_ok(m, op, ops.0, ops.1, &v.0[0]),
+            "C06: a result is memoised only under an operator/operand key that denotes it"
         );
     }
     fn clear(&self, _m: &KManager<'id>) {}
@@ -351,9 +383,9 @@ pub struct KManager<'id> {
     pub slots: [UnsafeCell<KNode>; N],
     pub len: Cell<usize>,
     /// number of nodes in the symbolic pre-state (ghost)
-    pub init: usize,
+    pub init_c: Cell<usize>,
     /// node capacity: `get_or_insert` of a new node fails once `len == cap`
-    pub cap: usize,
+    pub cap_c: Cell<usize>,
     /// ghost reference counting: watched node/terminal id and net reference change
     pub watch: u32,
     pub wrc: Cell<i32>,
@@ -367,9 +399,28 @@ pub struct KManager<'id> {
 }
 
 impl<'id> KManager<'id> {
+    /// Node slot `i`. The slot is selected by a chain of comparisons against *concrete*
+    /// indices instead of `&self.slots[i]` with a symbolic index: pointers into a struct array
+    /// with a symbolic offset are what CBMC mis-models in some data layouts (see KNode).
     #[inline(always)]
     pub fn node(&self, i: usize) -> &KNode {
-        unsafe { &*self.slots[i].get() }
+        let p: &UnsafeCell<KNode> = match i {
+            0 => &self.slots[0],
+            1 => &self.slots[1 % N],
+            2 => &self.slots[2 % N],
+            3 => &self.slots[3 % N],
+            4 => &self.slots[4 % N],
+            5 => &self.slots[5 % N],
+            6 => {
+                assert!(N > 6, "index out of bounds: node slot");
+                &self.slots[6 % N]
+            }
+            _ => {
+                assert!(i == 7 && N > 7, "index out of bounds: node slot");
+                &self.slots[7 % N]
+            }
+        };
+        unsafe { &*p.get() }
     }
     /// ghost semantics of an edge
     #[inline(always)]
@@ -429,7 +480,7 @@ impl<'id> KManager<'id> {
         true
     }
     pub fn wf(&self) -> bool {
-        let mut ok = self.len.get() <= N;
+        let mut ok = self.len.get() <= N && k_extra_wf(self);
         for_slots!(I => { ok = ok && self.wf_node(I); });
         ok
     }
@@ -462,7 +513,7 @@ impl<'id> KManager<'id> {
     pub fn new_parent_refs(&self) -> i32 {
         let mut c = 0;
         for_slots!(I => {
-            if I >= self.init && I < self.len.get() {
+            if I >= self.init_c.get() && I < self.len.get() {
                 let ch = self.node(I).ch();
                 if ch[0].id() == self.watch { c += 1; }
                 if ch[1].id() == self.watch { c += 1; }
@@ -478,7 +529,7 @@ impl<'id> KManager<'id> {
     pub fn ghost_distinct(&self, upto: usize) -> bool {
         let mut ok = true;
         for_slots!(I => {
-            if I < upto {
+            if I < upto && I < self.len.get() {
                 let gi = self.node(I).g.get();
                 ok = ok && !k_is_terminal_fn(self, gi);
                 for_slots!(J => {
@@ -602,7 +653,7 @@ unsafe impl<'a, 'id> LevelView<KEdge, KNode> for KLevelView<'a, 'id> {
             m.track(id, 1);
             return Ok(KEdge(id));
         }
-        if len >= m.cap {
+        if len >= m.cap_c.get() {
             m.oom.set(true);
             node.drop_with(|e| m.drop_edge(e));
             return Err(OutOfMemory);
@@ -828,6 +879,35 @@ unsafe impl Function for KFunc {
 
 // ---------------------------------------------------------------- symbolic construction (Kani only)
 
+/// An empty manager (no inner nodes) as a struct literal.
+///
+/// CBMC pitfall (probes dbg5 / dbg31): if the manager is *moved* (returned by value or
+/// wrapped into another struct) between its creation and the moment its node slots are
+/// filled through the `UnsafeCell`s, later reads of a node's first child through a
+/// reference are mis-modelled (spurious counterexamples). The manager must therefore be
+/// created by this macro in the very function that fills it; moving it afterwards is fine.
+#[cfg(kani)]
+macro_rules! k_new_manager {
+    ($cap:expr, $cache:expr, $x:expr, $order:expr) => {{
+        let order: ([LevelNo; L], [VarNo; L]) = $order;
+        KManager {
+            _p: PhantomData,
+            slots: k_slots(sym::blank_node),
+            len: Cell::new(0),
+            init_c: Cell::new(0),
+            cap_c: Cell::new($cap),
+            watch: kani::any(),
+            wrc: Cell::new(0),
+            created: Cell::new(0),
+            oom: Cell::new(false),
+            var2level: order.0,
+            level2var: order.1,
+            cache: $cache,
+            x: $x,
+        }
+    }};
+}
+
 #[cfg(kani)]
 pub mod sym {
     use super::*;
@@ -865,6 +945,42 @@ pub mod sym {
         (a, b)
     }
 
+    pub fn blank_node() -> UnsafeCell<KNode> {
+        blank()
+    }
+    /// Turn `m` (which holds `base` concrete nodes, e.g. a ZBDD tautology chain built
+    /// by the real code) into an arbitrary well-formed diagram with `init` further,
+    /// fully symbolic nodes (`init <= max_init`, `max_init` concrete).
+    pub fn havoc(m: &KManager<'static>, base: usize, init: usize, max_init: usize, cap: usize, use_lemma: bool) {
+        m.len.set(base + init);
+        m.init_c.set(base + init);
+        m.cap_c.set(cap);
+        m.wrc.set(0);
+        m.created.set(0);
+        m.oom.set(false);
+        for_slots!(I => {
+            if I >= base && I < base + max_init && I < base + init {
+                let rc: usize = kani::any();
+                kani::assume(rc >= 1);
+                // whole-node write (field-wise writes through the UnsafeCell after the manager has
+                // been moved once are mis-modelled by CBMC: probe dbg19)
+                let node = KNode {
+                    children: UnsafeCell::new(k_collect((0..ARITY).map(|_| KEdge(kani::any())))),
+                    level: Cell::new(kani::any()),
+                    g: Cell::new(G::default()),
+                    rc: Cell::new(rc),
+                };
+                unsafe { std::ptr::write(m.slots[I].get(), node) };
+            }
+        });
+        kani::assume(m.wf());
+        kani::assume((m.watch as usize) < NTERM + N);
+        m.compute_ghost(base + init);
+        if use_lemma {
+            kani::assume(m.ghost_distinct((base + max_init).min(N)));
+        }
+    }
+
     /// An arbitrary well-formed diagram with exactly `init` nodes (`init` is a
     /// concrete or symbolic number <= `max_init`), node capacity `cap`.
     pub fn any_manager(init: usize, max_init: usize, cap: usize, cache: KCache, x: KExtra,
@@ -873,37 +989,8 @@ pub mod sym {
     }
     pub fn any_manager_opt(init: usize, max_init: usize, cap: usize, cache: KCache, x: KExtra,
                        order: ([LevelNo; L], [VarNo; L]), use_lemma: bool) -> KManager<'static> {
-        let m = KManager {
-            _p: PhantomData,
-            slots: k_slots(blank),
-            len: Cell::new(init),
-            init,
-            cap,
-            watch: kani::any(),
-            wrc: Cell::new(0),
-            created: Cell::new(0),
-            oom: Cell::new(false),
-            var2level: order.0,
-            level2var: order.1,
-            cache,
-            x,
-        };
-        for_slots!(I => {
-            if I < max_init && I < init {
-                let n = m.node(I);
-                n.level.set(kani::any());
-                unsafe { *n.children.get() = k_collect((0..ARITY).map(|_| KEdge(kani::any()))) };
-                let rc: usize = kani::any();
-                kani::assume(rc >= 1);
-                n.rc.set(rc);
-            }
-        });
-        kani::assume(m.wf());
-        kani::assume((m.watch as usize) < NTERM + N);
-        m.compute_ghost(init);
-        if use_lemma {
-            kani::assume(m.ghost_distinct(max_init.min(N)));
-        }
+        let m: KManager<'static> = k_new_manager!(cap, cache, x, order);
+        havoc(&m, 0, init, max_init, cap, use_lemma);
         m
     }
 
